@@ -966,7 +966,11 @@ class Parser:
         if self.accept('id'):
             return self.create_node(IdNode, t)
         if self.accept('number'):
-            return self.create_node(NumberNode, t)
+            try:
+                return self.create_node(NumberNode, t)
+            except ValueError as e:
+                # int() refuses decimal literals beyond sys.get_int_max_str_digits()
+                raise ParseException(f'Invalid integer literal: {e}', self.lexer.getline(t.line_start), t.lineno, t.colno)
         if self.accept_any(ALL_STRINGS):
             try:
                 return self.create_node(StringNode, t)
